@@ -95,6 +95,18 @@ PROPS["C01"] = {
                     "ReadRepair off: with it on the property does not hold (F14)",
                     "stable membership, every backup owner reachable, no expiry options (C09)"],
 }
+PROPS["C02"] = {
+    "lean": ["OlricModel.Props.C02", "OlricModel.Props.C04", "OlricModel.Props.C13"],
+    "streams": [("failover", (5, 30), (60, 40)), ("cluster", (3, 150), (20, 400))],
+    "model": True,
+    "level_text": "Theorems, composing C04 and C13: an acknowledged write leaves the same entry on the owner and every backup owner and nowhere else (C04_put_written -> Stored); the routing table computed after the failures keeps every surviving holder listed - a listed owner or backup owner is dropped only when it is gone or reports zero keys (C02_survivor_listed_primary / _backup, from C13_backups); a Get over ANY new route that lists at least one surviving holder with the kind of copy it holds, whoever the new owner is, answers the acknowledged entry - never an older value, never not-found (C02_survives, get_all_same); fewer than R failures leave a holder alive (C02_some_survivor, pigeonhole over the distinct holders); an acknowledged Delete leaves no copy anywhere, so the key reads not-found under every later routing (C02_delete_removes_all, C02_delete_survives). Tied to the code by the failover stream: 3-5 members, R in {2,3}, read-repair off/on, up to R-1 members stopped gracefully or abruptly (no leave message), between operations or during a Put / Delete executing elsewhere (yield points), primary owners, backup owners, the coordinator; after re-stabilisation every key is read from every survivor, then the workload continues.",
+    "design_ref": "DESIGN.md §6 C02",
+    "modelled": DMAP_MODELLED + "; the routing computation of C13",
+    "assumptions": ["'healthy when acknowledged' = every backup owner reachable, so the write reached all R holders (C04); ReadQuorum 1",
+                    "a crash of the member that EXECUTES the operation cannot be produced inside one process: such an operation is unacknowledged (its client dies with it) and carries no obligation; crashes of every other member at the yield points are exact",
+                    "failure detection and gossip timing are memberlist's: the stream waits for convergence (up to 60 s) and abandons the episode otherwise",
+                    "failures beyond R-1 in total, and conditional Puts (NX/XX evaluate the new owner's local copy only) after a failover, are outside the property"],
+}
 PROPS["C04"] = {
     "lean": ["OlricModel.Props.C04"],
     "streams": [("cluster", (12, 150), (150, 400))],
